@@ -14,6 +14,7 @@ import (
 	"strconv"
 	"strings"
 	"sync"
+	"syscall"
 	"time"
 )
 
@@ -148,6 +149,16 @@ func cmdCheck(args []string) int {
 		evDir = filepath.Join(work, "evidence") // a scratch tree never overwrites the real evidence
 	}
 	os.MkdirAll(work, 0o755)
+	// one run of a check at a time per work directory: the shards' scratch directories live below it
+	// and are wiped when a run starts (a second run started beside a long one used to pull them away
+	// from under it). The lock is released when the process exits.
+	if lf, err := os.OpenFile(filepath.Join(work, ".lock"), os.O_CREATE|os.O_RDWR, 0o644); err == nil {
+		if err := syscall.Flock(int(lf.Fd()), syscall.LOCK_EX|syscall.LOCK_NB); err != nil {
+			fmt.Fprintf(os.Stderr, "vt: another run of %s is using %s, waiting for it to finish\n", id, work)
+			_ = syscall.Flock(int(lf.Fd()), syscall.LOCK_EX)
+		}
+		defer lf.Close()
+	}
 	os.MkdirAll(filepath.Join(verifDir, ".cache", "tmp"), 0o755)
 	os.MkdirAll(evDir, 0o755)
 
